@@ -11,7 +11,21 @@ A *scenario* is described by a small spec (plain dict, JSON-able; the corpus sto
     says    per link: does the function print a line before it goes on (stdout that must be delivered)
     pre     number of complete lines `main` prints before the call
     partial does `main` print a partial line (no newline) right before the call
-    style   'let' | 'expr': the failing operation is the initialiser of a `let` or the whole body
+    style   where the failing operation sits in the innermost function:
+            'let' | 'expr'   the initialiser of a `let` / the whole body (every kind)
+            'ca-array' 'ca-vec' 'ca-global' 'ca-field' 'ca-sfield' 'ca-local' 'ca-captured'
+                             the arithmetic of a compound assignment `target op= q` whose target is an Array element, a Vec
+                             element, a global, a class field, a field of a struct local, a local, a local captured by a closure
+            'ca-idxexpr'     the INDEX expression of `arr(p op q) += 1`            (64-bit arithmetic kinds)
+            'ca'             `arr(q) += 5` / `vec(q) += 5` whose element load is out of bounds   (idx-load, vec-get)
+            'chain2'         one of two checked operations of an unparenthesised expression: `p * 1 + q` (the `+` fails; both
+                             operations start at the same source position) / `1 + p * q` (the `*` `/` `%` fails)
+            'tmpl'           inside a string template `"v${p op q}"`
+            'mlarg'          an argument on a line of its own of a call written over several lines
+            'while-cond' 'if-cond' 'match-arm' 'return'
+            Except for 'let'/'expr', the failing statement is ALWAYS followed, on later lines of the same function, by
+            statements that carry a position of their own (println, a call, a checked operation that does not fail), so
+            that "the next recorded position" differs from "the position of the failing operation".
     vsel    integer that selects the operand values / generic type argument
 
 A *program* holds 1..n scenarios: `main` reads which one to run from its first command-line argument
@@ -47,6 +61,29 @@ TRAP_MSG = {'div0': 'division by 0', 'assert': 'assert failed', 'index': 'array 
             'overflow': 'overflow', 'shift': 'shift amount out of bounds'}
 
 ARITH = ['div0', 'mod0', 'ovf-add', 'ovf-sub', 'ovf-mul', 'ovf-neg', 'ovf-div', 'ovf-mod', 'shl', 'shr', 'sar']
+CA_STYLES = ['ca-array', 'ca-vec', 'ca-global', 'ca-field', 'ca-sfield', 'ca-local', 'ca-captured']
+EXPR_STYLES = ['tmpl', 'mlarg', 'while-cond', 'if-cond', 'match-arm', 'return']
+NEW_STYLES = CA_STYLES + ['ca-idxexpr', 'ca', 'chain2'] + EXPR_STYLES
+BIN_OF = {'div0': 'div', 'mod0': 'mod', 'ovf-add': 'add', 'ovf-sub': 'sub', 'ovf-mul': 'mul', 'ovf-div': 'div', 'ovf-mod': 'mod',
+          'shl': 'shl', 'shr': 'shr', 'sar': 'sar'}
+
+
+def styles_for(kind):
+    """the styles a kind can be written in (beyond 'let' / 'expr')"""
+    m = re.match(r'^(.*)-(32|64)$', kind)
+    base, bits = (m.group(1), int(m.group(2))) if m else (kind, 0)
+    if base in BIN_OF:
+        st = CA_STYLES + EXPR_STYLES
+        if bits == 64:
+            st = st + ['ca-idxexpr']
+        if base not in ('shl', 'shr', 'sar'):
+            st = st + ['chain2']
+        return st
+    if base == 'ovf-neg':
+        return list(EXPR_STYLES)
+    if kind in ('idx-load', 'vec-get'):
+        return ['ca']
+    return []
 KINDS = ['%s-%d' % (k, b) for k in ARITH for b in (32, 64)] + \
         ['idx-load', 'idx-store', 'assert', 'unwrap-none', 'vec-get', 'vec-set', 'fatal', 'unreachable']
 LINKS = ['plain', 'generic', 'method', 'smethod', 'static', 'trait', 'closure', 'inline']
@@ -102,7 +139,116 @@ class Op:
     pass
 
 
-def make_op(kind, style, vsel, tag):
+def after_stmts(tag, vsel):
+    """statements that follow the failing one on later lines: each carries a position of its own"""
+    say = P.println(P.template('%s after' % tag))
+    calc = P.let('w_%s' % tag, T64, P.binop('add', P.lit(T64, 1 + vsel % 5), P.lit(T64, 2), ty=T64))
+    return [[say], [calc, say], [say, calc]][vsel % 3]
+
+
+def styled_body(op, style, T, e, bop, tag, vsel, decls):
+    """op.body for the styles beyond 'let'/'expr'. e(p, q) builds the failing expression (type T); bop = its binary operator
+    name or None (unary). The body returns (statements, node whose line is the failing line)."""
+    after = lambda: after_stmts(tag, vsel)           # fresh nodes per call
+
+    def ca(target_pre, target, result):
+        """pre statements, the compound assignment `target op= q`, the statements after, the value"""
+        def body(p, q):
+            st = P.cassign(bop, target(), q)
+            return target_pre(p) + [st] + after() + [result()], st
+        return body
+
+    if style == 'ca-array':
+        at = P.t_array(T)
+        el = lambda: N('index', P.var('arr', at), P.lit(T64, 1), ty=T)
+        op.body = ca(lambda p: [P.let('arr', at, P.scall(at, 'fill', P.lit(T64, 3), p, ty=at))], el, el)
+    elif style == 'ca-vec':
+        vt = P.t_vec(T)
+        el = lambda: N('index', P.var('vec', vt), P.lit(T64, 0), ty=T)
+        op.body = ca(lambda p: [P.let('vec', vt, P.scall(vt, 'new', ty=vt)), P.meth('push', P.var('vec', vt), p, ty=P.T_UNIT)], el, el)
+    elif style == 'ca-global':
+        gn = 'g_%s' % tag
+        decls.append(dict(k='global', name=gn, ty=T, mut=True, init=P.lit(T, 0)))
+        gv = lambda: P.var(gn, T)
+        op.body = ca(lambda p: [P.assign(gv(), p)], gv, gv)
+    elif style in ('ca-field', 'ca-sfield'):
+        cn = '%s_%s' % (tag.upper(), 'K' if style == 'ca-field' else 'R')
+        ct = P.t_class(cn) if style == 'ca-field' else P.t_struct(cn)
+        decls.append(dict(k='class' if style == 'ca-field' else 'struct', name=cn, fields=[('w', T64), ('v', T)]))
+        fl = lambda: N('field', P.var('obj', ct), 'v', ty=T)
+        op.body = ca(lambda p: [P.let('obj', ct, N('new', cn, [('w', P.lit(T64, 4)), ('v', p)], ty=ct), mut=(style == 'ca-sfield'))], fl, fl)
+    elif style == 'ca-local':
+        lv = lambda: P.var('acc', T)
+        op.body = ca(lambda p: [P.let('acc', T, p, mut=True)], lv, lv)
+    elif style == 'ca-captured':
+        fty = P.t_fn((), T)
+        lv = lambda: P.var('acc', T)
+        op.body = ca(lambda p: [P.let('acc', T, p, mut=True), P.let('peek', fty, N('lambda', [], T, P.block(lv()), ty=fty))],
+                     lv, lambda: N('callv', P.var('peek', fty), ty=T))
+    elif style == 'ca-idxexpr':
+        at = P.t_array(T64)
+
+        def body(p, q):
+            st = P.cassign('add', N('index', P.var('arr', at), e(p, q), ty=T64), P.lit(T64, 1))
+            return [P.let('arr', at, P.scall(at, 'fill', P.lit(T64, 3), P.lit(T64, 7), ty=at)), st] + after() + \
+                   [N('index', P.var('arr', at), P.lit(T64, 0), ty=T64)], st
+        op.body = body
+    elif style == 'chain2':
+        def body(p, q):
+            if bop in ('add', 'sub'):
+                # `p * 1 + q`: CheckedMul and CheckedAdd start at the same position; the second one fails
+                inner = N('bin', 'mul', p, P.lit(T, 1), 'bare', ty=T)
+                ex = N('bin', bop, inner, q, 'bare', ty=T)
+            else:
+                # `1 + p * q`: the multiplicative operation is evaluated first and fails; the addition never runs
+                inner = N('bin', bop, p, q, 'bare', ty=T)
+                ex = N('bin', 'add', P.lit(T, 1), inner, 'bare', ty=T)
+            st = P.let('u', T, ex)
+            return [st] + after() + [P.var('u', T)], st
+        op.body = body
+    elif style == 'tmpl':
+        def body(p, q):
+            st = P.let('txt', P.T_STR, P.template('v', e(p, q), ';'))
+            return [st, P.println(P.template('%s got ' % tag, P.var('txt', P.T_STR)))] + after() + [p], st
+        op.body = body
+    elif style == 'mlarg':
+        hn = '%s_pick' % tag
+        decls.append(P.fn_decl(hn, [('a', T), ('b', T)], T, P.block(P.var('b', T))))
+
+        def body(p, q):
+            ex = e(p, q)
+            st = P.let('u', T, N('mlcall', hn, p, ex, ty=T))
+            return [st] + after() + [P.var('u', T)], ex
+        op.body = body
+    elif style == 'while-cond':
+        def body(p, q):
+            st = N('while', P.binop('eq', e(p, q), p, ty=P.T_BOOL),
+                   P.block(P.assign(P.var('n', T64), P.binop('add', P.var('n', T64), P.lit(T64, 1), ty=T64))))
+            return [P.let('n', T64, P.lit(T64, 0), mut=True), st] + after() + [p], st
+        op.body = body
+    elif style == 'if-cond':
+        def body(p, q):
+            st = N('if', P.binop('eq', e(p, q), p, ty=P.T_BOOL), P.block(P.println(P.template('%s then' % tag))))
+            return [st] + after() + [p], st
+        op.body = body
+    elif style == 'match-arm':
+        def body(p, q):
+            st = P.let('u', T, e(p, q))
+            arm0 = P.block(st, P.println(P.template('%s arm ' % tag, P.var('u', T))))
+            arm1 = P.block(P.println(P.template('%s other' % tag)))
+            m = N('match', P.lit(T64, vsel % 3), [(('plit', T64, vsel % 3), arm0), (('pwild',), arm1)])
+            return [m] + after() + [p], st
+        op.body = body
+    elif style == 'return':
+        def body(p, q):
+            st = N('return', e(p, q))
+            return [N('if', P.binop('eq', p, p, ty=P.T_BOOL), P.block(st))] + after() + [p], st
+        op.body = body
+    else:
+        raise ValueError(style)
+
+
+def make_op(kind, style, vsel, tag, decls):
     r = random.Random('c14op/%s/%s' % (kind, vsel))
     op = Op()
     m = re.match(r'^(.*)-(32|64)$', kind)
@@ -112,12 +258,17 @@ def make_op(kind, style, vsel, tag):
     op.P = op.Q = op.R = T
     op.msg_fatal = None
 
+    if style not in ('let', 'expr') and style not in styles_for(kind):
+        raise ValueError('style %s cannot be written for kind %s' % (style, kind))
+
     def finish(e, cls):
         """e = the failing expression of type R"""
         if style == 'expr':
             op.body = lambda p, q: [e(p, q)]
-        else:
+        elif style == 'let':
             op.body = lambda p, q: [P.let('u', op.R, e(p, q)), P.var('u', op.R)]
+        else:
+            styled_body(op, style, T, e, BIN_OF.get(base), tag, vsel, decls)
         op.mark_index = 0
         op.cls = cls
 
@@ -149,7 +300,14 @@ def make_op(kind, style, vsel, tag):
         et = r.choice([T64, T32])
         op.P, op.Q, op.R = P.t_array(et), T64, et
         op.args = (P.scall(op.P, 'zero', P.lit(T64, n), ty=op.P), P.lit(T64, r.choice([n, n + 3, -1, 2 ** 40, mn])))
-        if kind == 'idx-load':
+        if kind == 'idx-load' and style == 'ca':
+            def body(p, q):
+                st = P.cassign('add', N('index', p, q, ty=et), P.lit(et, 5))
+                return [st] + after_stmts(tag, vsel) + [P.lit(et, 0)], st
+            op.body = body
+            op.mark_index = 0
+            op.cls = 'index'
+        elif kind == 'idx-load':
             finish(lambda p, q: N('index', p, q, ty=et), 'index')
         else:
             op.body = lambda p, q: [P.assign(N('index', p, q, ty=et), P.lit(et, 5)), P.lit(et, 0)]
@@ -169,7 +327,14 @@ def make_op(kind, style, vsel, tag):
     elif kind in ('vec-get', 'vec-set'):
         op.P = P.t_vec(T64)
         op.args = (P.scall(op.P, 'new', ty=op.P), P.lit(T64, r.choice([0, -1, 5])))
-        if kind == 'vec-get':
+        if kind == 'vec-get' and style == 'ca':
+            def body(p, q):
+                st = P.cassign('add', N('index', p, q, ty=T64), P.lit(T64, 5))
+                return [st] + after_stmts(tag, vsel) + [P.lit(T64, 0)], st
+            op.body = body
+            op.mark_index = 0
+            op.cls = 'fatal'
+        elif kind == 'vec-get':
             finish(lambda p, q: N('index', p, q, ty=T64), 'fatal')
         else:
             op.body = lambda p, q: [P.assign(N('index', p, q, ty=T64), P.lit(T64, 5)), P.lit(T64, 0)]
@@ -214,7 +379,7 @@ def build_scenario(spec, idx, decls):
     says = list(spec.get('says') or [False] * len(chain))
     says += [False] * (len(chain) - len(says))
     tag = 's%d' % idx
-    op = make_op(kind, spec.get('style', 'let'), spec.get('vsel', 0), tag)
+    op = make_op(kind, spec.get('style', 'let'), spec.get('vsel', 0), tag, decls)
     sc.op = op
     frames = []        # innermost first: [display, node (line known after printing), link kind, mini name]
     out_inner = []     # lines printed by the chain, outermost first
@@ -232,6 +397,9 @@ def build_scenario(spec, idx, decls):
         p, q = P.var(pn, op.P), P.var(qn, op.Q)
         if i == len(chain) - 1:
             b = op.body(p, q)
+            if isinstance(b, tuple):
+                b, mark = b
+                return stmts + b, mark
             mi = op.mark_index
             mark = b[mi[1]].a[1].a[0] if isinstance(mi, tuple) else b[mi]
             return stmts + b, mark
@@ -366,32 +534,45 @@ def build_program(name, specs, std_dir=None):
         sc.expect = dict(message=op.message, status=op.status, frames=frames,
                          stdout='start %s\n' % name + sc.stdout_main + sc.stdout_chain, cls=op.cls)
         sc.shape = '>'.join(sc.spec['chain'])
-        sc.key = '%s/%s' % (sc.spec['kind'], sc.shape)
+        st = sc.spec.get('style', 'let')
+        sc.key = '%s/%s' % (sc.spec['kind'], sc.shape) + ('' if st in ('let', 'expr') else '/' + st)
     return tp
 
 
 # ----------------------------------------------------------------------------------------------- random specs
-def random_spec(r, kind=None, first_link=None, depth=None):
+def random_spec(r, kind=None, first_link=None, depth=None, style=None):
     kind = kind or r.choice(KINDS)
     depth = depth or r.choice([1, 2, 2, 3, 3, 4])
     chain = [r.choice(LINKS) for _ in range(depth)]
     if first_link:
         chain[r.randrange(depth)] = first_link
     return dict(kind=kind, chain=chain, says=[r.random() < 0.35 for _ in chain], pre=r.randint(0, 2),
-                partial=r.random() < 0.4, style=r.choice(['let', 'expr']), vsel=r.randint(0, 999))
+                partial=r.random() < 0.4, style=style or r.choice(['let', 'expr']), vsel=r.randint(0, 999))
 
 
 def gen_specs(seed, count):
-    """`count` scenario specs: every kind and every link kind is used before anything repeats (so a small quick tier
-    still covers every trapping kind and every call shape), the rest is random; deterministic in `seed`"""
+    """`count` scenario specs: every kind (styles 'let'/'expr') and every link kind is used before anything repeats (so a
+    small quick tier still covers every trapping kind and every call shape), then every style of NEW_STYLES once with a kind
+    it can be written for, the rest alternates between a random new style and a random old one; deterministic in `seed`"""
     r = random.Random('c14/%s' % seed)
     kinds = KINDS[:]
     r.shuffle(kinds)
     links = LINKS[:]
     r.shuffle(links)
+    r2 = random.Random('c14styles/%s' % seed)         # a stream of its own: the first len(KINDS) specs stay what they were
+    styles = NEW_STYLES[:]
+    r2.shuffle(styles)
     specs = []
     for i in range(count):
-        specs.append(random_spec(r, kind=kinds[i % len(kinds)], first_link=links[i % len(links)]))
+        j = i - len(kinds)
+        if j < 0 or (j >= len(styles) and j % 2 == 1):
+            specs.append(random_spec(r, kind=kinds[i % len(kinds)], first_link=links[i % len(links)]))
+            continue
+        st = styles[j] if j < len(styles) else r2.choice(NEW_STYLES)
+        kd = r2.choice([k for k in KINDS if st in styles_for(k)])
+        specs.append(random_spec(r2, kind=kd, first_link=links[i % len(links)], style=st))
+    if count > len(kinds) + 1:
+        specs[1], specs[len(kinds)] = specs[len(kinds)], specs[1]     # one of the stand-alone programs gets a new style
     return specs
 
 
